@@ -1041,7 +1041,48 @@ class Inliner:
                         kind = "static" if any(ast.unparse(d) == "staticmethod" for d in s.decorator_list) else (
                             "class" if any(ast.unparse(d) == "classmethod" for d in s.decorator_list) else "method")
                         return s, f.value, kind
+                # a helper extracted into a base class (possibly in another module): looked up along the bases by simple name
+                if base in ("self", "cls", "type(self)", "__class__"):
+                    hit = self._inherited_method(name)
+                    if hit is not None:
+                        s, drel = hit
+                        kind = "static" if any(ast.unparse(d) == "staticmethod" for d in s.decorator_list) else (
+                            "class" if any(ast.unparse(d) == "classmethod" for d in s.decorator_list) else "method")
+                        if drel != self.rel:
+                            s._defrel = drel
+                        return s, f.value, kind
         return _why(412)
+
+    def _inherited_method(self, name, depth=4):
+        """(def, defining file) of method `name` found in a base class of self.cls (bases named by a plain Name, resolved in this file or through
+        `from .x import Base`), nearest first; only artefact methods are of interest, the caller checks that."""
+        seen, todo = set(), [(self.cls, self.rel)]
+        for _ in range(depth):
+            nxt = []
+            for cls, rel in todo:
+                for b in cls.bases:
+                    if not isinstance(b, ast.Name) or (b.id, rel) in seen:
+                        continue
+                    seen.add((b.id, rel))
+                    f = self.m.files.get(rel)
+                    k, krel = next((c for c in f.clean_tree.body if isinstance(c, ast.ClassDef) and c.name == b.id), None), rel
+                    if k is None:
+                        imp = f.imported.get(b.id)
+                        if imp is not None:
+                            for drel in (imp[0] + ".py", imp[0] + "/__init__.py"):
+                                if drel in self.m.files:
+                                    k = next((c for c in self.m.files[drel].clean_tree.body if isinstance(c, ast.ClassDef) and c.name == imp[1]), None)
+                                    krel = drel
+                                    if k is not None:
+                                        break
+                    if k is None:
+                        continue
+                    for s_ in k.body:
+                        if isinstance(s_, ast.FunctionDef) and s_.name == name:
+                            return s_, krel
+                    nxt.append((k, krel))
+            todo = nxt
+        return None
 
     def _artefact_classes(self):
         f = self.m.files[self.rel]
